@@ -276,6 +276,68 @@ def replay_relabel(gridname, op):
     return {"violates": r["status"] == "violated", "detail": r["detail"]}
 
 
+def bary_relabel_invariants(kind, rot, seed=11):
+    """label-independent invariants (singular values, sorted diagonal) of the mass and Laplace single-layer matrices of a barycentric-refinement space on
+    the octahedron and on a renumbered (+ locally rotated) copy of it"""
+    import bempp_cl.api as api
+    from bempp_cl.api.operators.boundary import sparse
+
+    warnings.simplefilter("ignore")
+    g = Z.grid_with_domains("octa")
+    par = Z.params(4, 6)
+    rng = np.random.RandomState(seed)
+    pv = rng.permutation(g.number_of_vertices)
+    pe = rng.permutation(g.number_of_elements)
+    newv = np.empty_like(g.vertices)
+    newv[:, pv] = g.vertices
+    el = pv[g.elements[:, pe].astype(int)]
+    if rot:
+        el = np.array([np.roll(el[:, j], (j + rot) % 3) for j in range(el.shape[1])]).T
+    g2 = SG.make_grid(newv, el, g.domain_indices[pe])
+    out = []
+    for grid in (g, g2):
+        S = api.function_space(grid, kind[0], kind[1])
+        M = Z.dense(sparse.identity(S, S, S, parameters=par))
+        if kind[0] in ("BC", "RBC"):
+            # vector-valued: pair with the rotated space so that the mass matrix is the (non-degenerate) Maxwell pairing, and use the electric field operator
+            R = api.function_space(grid, "RBC" if kind[0] == "BC" else "BC", 0)
+            M = Z.dense(sparse.identity(S, S, R, parameters=par))
+            Vm = None
+        else:
+            # dense assembly rejects spaces with a dof transformation; the singular part (adjacent element pairs of the barycentric grid) supports them
+            Vm = Z.dense(Z.boundary_operator("laplace_single", S, S, S, par, assembler="only_singular_part"))
+        out.append({"dofs": S.global_dof_count, "mass_sv": np.linalg.svd(M, compute_uv=False), "mass_diag": np.sort(np.abs(np.diag(M))),
+                    "single_sv": None if Vm is None else np.linalg.svd(Vm, compute_uv=False)})
+    return out
+
+
+def replay_bary_relabel(kind, rot):
+    a, b = bary_relabel_invariants(tuple(kind), rot)
+    res = {"dofs": [a["dofs"], b["dofs"]]}
+    bad = a["dofs"] != b["dofs"]
+    if not bad:
+        res["mass_singular_values"] = float(np.abs(a["mass_sv"] - b["mass_sv"]).max() / a["mass_sv"].max())
+        res["mass_diagonal"] = float(np.abs(a["mass_diag"] - b["mass_diag"]).max() / a["mass_sv"].max())
+        bad = res["mass_singular_values"] > 1e-10 or res["mass_diagonal"] > 1e-10
+        if a["single_sv"] is not None:
+            res["single_layer_singular_values"] = float(np.abs(a["single_sv"] - b["single_sv"]).max() / a["single_sv"].max())
+            bad = bad or res["single_layer_singular_values"] > (1e-4 if rot else 1e-10)
+    res["violates"] = bool(bad)
+    return res
+
+
+def ob_bary_relabel(kind, rot):
+    """bounded: for the spaces on the barycentric refinement (DUAL0, DUAL1, BC, RBC) renumbering vertices and elements of the coarse grid and rotating
+    local vertex orders leaves the label-independent invariants of the mass matrix (exactly integrated: 1e-10) and of the singular part of the Laplace
+    single-layer matrix (singular quadrature: 1e-4 under rotation, 1e-10 under pure renumbering) unchanged: singular values and sorted |diagonal|."""
+    r = replay_bary_relabel(list(kind), rot)
+    if r["violates"]:
+        return violated("%s%d on the octahedron: matrices are not invariant under renumbering%s: %s" % (kind[0], kind[1], " + local rotation" if rot else "", r),
+                        witness={"kind": list(kind), "local_rotation": rot}, signature="bary-relabel/%s%d" % kind,
+                        replay={"callable": "checks.c03:replay_bary_relabel", "kwargs": {"kind": list(kind), "rot": rot}, "confirmed": True, "result": r})
+    return held("%d dofs; %s" % (r["dofs"][0], {k: "%.1e" % v for k, v in r.items() if isinstance(v, float)}))
+
+
 def ob_extreme_scales(key, mode):
     """bounded (floats): the real kernel function agrees with its closed form (1e-8) for point sets scaled by 1e-9 .. 1e6 and translated 1e5 diameters away from
     the origin, with the wavenumber scaled inversely: absolute tolerances, clamps and numerically unstable (cancelling) distance formulas inside a kernel are
@@ -441,6 +503,9 @@ def main():
             for p1_ in PERMS:
                 run.add("pipeline.singular-remap[pair share=%d %s/%s DP1xDP0]" % (share, p0, p1_), "post", PL.ob_pipeline, "pair:%d:%s:%s" % (share, p0, p1_), dp1, ("DP", 0, {}))
     run.add("space._process_segments", "bounded", ob_process_segments)
+    for kind in (("DUAL", 0), ("DUAL", 1), ("BC", 0), ("RBC", 0)):
+        for rot in ((0, 1, 2) if thorough or kind == ("DUAL", 0) else (1,)):
+            run.add("matrix.relabel.barycentric[%s%d rot=%d]" % (kind[0], kind[1], rot), "bounded", ob_bary_relabel, kind, rot)
     ops = list(FACTORS)
     for op in ops:
         for gname in (("octa", "screen2") if thorough else ("octa",)):
